@@ -20,6 +20,11 @@ NA = {
 }
 
 CLAIMS = {
+    'C16': dict(
+        category='exploration', technique='deterministic simulation: seeded query histories on a fresh lazily-parsed database (lookups in any order, interleaved full loads, mutation of handed-out copies) against a full-load reference; text/binary round trips through the simulated disk with short reads',
+        engine='history-machine+E2-simfs',
+        text='(a) Lazy histories: a fresh EngineDB (fgd.lzma) receives seeded sequences of get_ent / EntityDef.engine_def for existing, alias, unknown and mixed-case names, get_classnames / engine_classes, an interleaved get_fgd and mutations of every copy handed out; each answer must equal the definition from a database loaded in full first (class, kind, alias flag, bases and whether they are resolved, keyvalues with type/display name/default/flags, inputs/outputs, resources). (b) The complete bundled database is exported to text on the simulated disk, parsed back and exported again (fixed point, fields equal up to the documented I/O type decay), and serialised/unserialised in the binary format. (c) Generated FGDs (every value type, empty display names/defaults/descriptions, strings over 1000 characters with and without spaces, tagged duplicates, bases, spawnflags, choices, resources) go through the text cycle under seeded options and short reads; generated engine-format FGDs large enough for the binary format are serialised, unserialised and queried lazily in a seeded order with the generating spec as ground truth.',
+        note='Descriptions/helpers are not stored by the binary format and are generated empty there; boolean defaults blank vs 0 and spawnflags display names are normalised as the text syntax requires.', ref='5/C16'),
     'C05': dict(
         category='exploration', technique='seeded operation histories over an object pool with invariants evaluated after every step (claimed on the histories quantifier; no seam or fault exists for this property and the evidence says so)',
         engine='history-machine',
